@@ -43,14 +43,6 @@ def tlc_pair(jobs):
         return [f.result() for f in futs]
 
 
-def tlc_state_int(out, var):
-    """value of an integer state variable in the last state TLC printed"""
-    v = None
-    for m in re.finditer(r"^/\\ %s = (-?\d+)" % re.escape(var), out, re.M):
-        v = int(m.group(1))
-    return v
-
-
 def slug(s):
     return re.sub(r"[^A-Za-z0-9]+", "-", s).strip("-")[:50]
 
@@ -102,7 +94,7 @@ def shard(rows, n):
 def check_masks(chk, wd, rows, shards, workers, timeout):
     """TLC judges the rows.  Returns nothing; reports through chk."""
     byid = {r["id"]: r for r in rows}
-    for rnd in range(4):
+    for rnd in range(2):
         parts = shard(rows, shards)
         jobs = []
         for j, part in enumerate(parts):
@@ -133,17 +125,17 @@ def check_masks(chk, wd, rows, shards, workers, timeout):
                                        "printed": [r["stmts"][x] for x in v["bad"]]})
             if res.ok:
                 continue
-            rid = tlc_state_int(res.out, "id")
-            if rid is None or rid not in byid:
-                raise lib.ToolError("Check_DiffMask: violated but cannot locate the row\n" + res.out[-3000:])
             if not re.search(r"Invariant Bijection is violated", res.out):
                 raise lib.ToolError("Check_DiffMask: unexpected invariant violation\n" + res.out[-3000:])
-            byid[rid]["explain"] = True    # next round: judged outside the invariant, all bad masks listed
             again = True
         if not again:
             return
-        rows = [r for r in rows if not (r["dup"] and not r["explain"])]   # dup rows are already reported
-    raise lib.ToolError("Check_DiffMask: still violations after 4 rounds")
+        if rnd == 1:
+            raise lib.ToolError("Check_DiffMask: the invariant is violated although every row is judged outside it")
+        # the invariant is violated somewhere: judge every remaining row outside it, which lists all bad masks of all rows
+        rows = [r for r in rows if not r["dup"]]
+        for r in rows:
+            r["explain"] = True
 
 
 # ------------------------------------------------------------------------------------------ (b)
@@ -216,7 +208,7 @@ def check_switches(chk, wd, rows, shards, workers, timeout):
     byid = {r["id"]: r for r in rows}
     counts = {"finer_rows": 0, "finer_rows_violating": 0, "finer_rows_predicted_by_top_only_model": 0}
     seen_verdict = set()
-    for rnd in range(4):
+    for rnd in range(2):
         parts = shard(rows, shards)
         jobs = []
         for j, part in enumerate(parts):
@@ -248,19 +240,18 @@ def check_switches(chk, wd, rows, shards, workers, timeout):
                                        "text": r["text"], "copies": r["copies"], "verdict": v})
             if res.ok:
                 continue
-            m = None
-            for m in re.finditer(r"\bid \|-> (\d+)", res.out[res.out.find("Error:"):]):
-                pass
-            if m is None or int(m.group(1)) not in byid:
-                raise lib.ToolError("Check_DiffSwitch: violated but cannot locate the row\n" + res.out[-3000:])
             if not re.search(r"Invariant Holds is violated", res.out):
                 raise lib.ToolError("Check_DiffSwitch: unexpected invariant violation\n" + res.out[-3000:])
-            byid[int(m.group(1))]["explain"] = True
             again = True
         if not again:
             return counts
-        rows = [r for r in rows if not (r["finer"] and not r["explain"])]
-    raise lib.ToolError("Check_DiffSwitch: still violations after 4 rounds")
+        if rnd == 1:
+            raise lib.ToolError("Check_DiffSwitch: the invariant is violated although every row is judged outside it")
+        # the invariant is violated somewhere: judge every remaining row outside it (verdict + failing clause per row)
+        rows = [r for r in rows if not r["finer"]]
+        for r in rows:
+            r["explain"] = True
+    return counts
 
 
 # ------------------------------------------------------------------------------------------ driver
